@@ -39,7 +39,7 @@ func main() {
 
 func cases(tier string) int {
 	if tier == "thorough" {
-		return 5000
+		return 20000
 	}
 	return 1500
 }
